@@ -97,11 +97,12 @@ def r2_operators(ctx):
         adt = F.adts.get(fn.impl_self_adt)
         has_mu = adt and any(fd["name"] == "max_population_size" for fd in adt["variants"][0]["fields"])
         bad = []
-        for npar in range(0, 3):
-            for noff in range(0, 3):
+        NS = 4 if ctx.tier == "thorough" else 3
+        for npar in range(0, NS):
+            for noff in range(0, NS if npar < 3 else 3):
                 n = npar + noff
                 for order in (weak_orderings(n) if n else [()]):
-                    for mu in (range(0, 4) if has_mu else [None]):
+                    for mu in (range(0, 4 + (2 if ctx.tier == "thorough" else 0)) if has_mu else [None]):
                         par = ["o:%d" % i for i in range(npar)]
                         off = ["o:%d" % (npar + j) for j in range(noff)]
                         me = Sym("self", {0: mu} if has_mu else {})
